@@ -375,7 +375,7 @@ class SchemaElifElseGuardsSound(_Schema):
     name = "pysnark.branching:_if#elif_else_guards_sound"
     vprops = ("C09", "C07", "C08")
     fprops = ("C09", "C08", "C07")
-    sprops = ("C02", "C03", "C09")
+    sprops = ("C02", "C03", "C09", "C08")
     cprops = ()
     tprops = ()
 
@@ -447,6 +447,7 @@ class SchemaForBreakGuards(_Schema):
     name = "pysnark.branching:_range#for_break_guards"
     vprops = ("C09", "C07", "C08")
     fprops = ("C09", "C08", "C07")
+    sprops = ("C02", "C03", "C08", "C09")
 
     def configs(self, tier):
         return [dict(cond="secret_lc", bits=3)]
@@ -482,8 +483,13 @@ def prog():
         if not d["V.all_iterations_ran"]:
             return d
         gv = lambda g: term(1) if g is None else c.v(g)
+        tied = And(*[c.tied(b) for b in bs])
         for t, i, g, ie_ in self._seen:
             alive = And(*[c.v(bs[j]) == 0 for j in range(i + (1 if t == "after" else 0))])
             d["V.guard[%s %d]" % (t, i)] = Eq(gv(g), If(alive, 1, 0))
             d["V.errors_off_iff_dead[%s %d]" % (t, i)] = formula(ie_) == Not(alive)
+            if g is not None:
+                # for a dishonest prover too: with the break conditions as given, the guard wire of every iteration is
+                # forced to the conjunction (a conjunction derived inside the previous iteration's region is not)
+                d["S.guard_determined[%s %d]" % (t, i)] = Implies(tied, c.eva(g) == c.v(g) % c.p)
         return d
